@@ -14,6 +14,7 @@ PARAMS = {  # property -> (quick: len, cuts), (thorough: len, cuts)
     "C01": ((4, 1), (5, 2)),
     "C02": ((4, 1), (5, 2)),
     "C06": ((4, 1), (5, 1)),
+    "C08": ((3, 1), (4, 1)),
     "C09": ((3, 1), (4, 2)),
     "C10": ((2, 1), (3, 2)),
     "C11": ((3, 1), (4, 2)),
